@@ -36,8 +36,8 @@ Cfg ==
         [leaves |-> {}, unary |-> {}, binary |-> {}, size |-> 3,     \* size = max number of alternatives
          tyM    |-> {"@", "", "$"},
          aux    |-> { [ty |-> "", e |-> Bin("alt", S(b), S(cc))], [ty |-> "_", e |-> S(b)] },
-         ws     |-> {"none"},  cm |-> {"none"},
-         sigma  |-> {97, 98, 99, 233, 224},  len |-> 4]
+         ws     |-> {"none"},  cm |-> {"none", "_"},       \* a COMMENT without WHITESPACE: skipped implicitly all the same
+         sigma  |-> {97, 98, 99, 233, 224, 35},  len |-> 4]
     [] BaseSlice = "factor" ->
         [leaves |-> {}, unary |-> {}, binary |-> {}, size |-> 1,
          tyM    |-> {"", "_", "@", "$", "!"},
@@ -109,6 +109,12 @@ Cfg ==
          aux    |-> { [ty |-> "", e |-> Bin("seq", S(a), S(b))] },
          ws     |-> {"", "_", "@", "$", "!"},  cm |-> {"none", "$", "!", ""},
          sigma  |-> {97, 98, 32, 35},  len |-> 4]
+    [] BaseSlice = "wspred" ->  \* sequences that BEGIN with a predicate: the implicit skip behind it is the first thing that moves
+        [leaves |-> {}, unary |-> {}, binary |-> {}, size |-> 1,
+         tyM    |-> {"", "!", "@"},
+         aux    |-> { [ty |-> "", e |-> Bin("seq", S(a), S(b))] },
+         ws     |-> {"_", ""},  cm |-> {"none", "_"},
+         sigma  |-> {97, 98, 32, 35},  len |-> 4]
     [] BaseSlice = "wsref" ->   \* WHITESPACE / COMMENT referred to BY NAME from rules of every modifier (besides being skipped
                                 \* implicitly): what they emit and how their failures are tracked depends on the mode of the caller
         [leaves |-> {S(a), Id("WHITESPACE"), Id("COMMENT")},
@@ -123,7 +129,9 @@ Cfg ==
         [leaves |-> {S(a), Id("POP"), Id("PEEK"), Id("DROP"), Id("PEEK_ALL"), Id("POP_ALL"),
                      Un("push", S(a)), Un("push", Id("ANY")),
                      [t |-> "peek", lo |-> 0, hi |-> 1, open |-> FALSE],
-                     [t |-> "peek", lo |-> -1, hi |-> 0, open |-> TRUE]},
+                     [t |-> "peek", lo |-> -1, hi |-> 0, open |-> TRUE],
+                     [t |-> "peek", lo |-> 1, hi |-> -1, open |-> FALSE],     \* empty or inverted, depending on the depth
+                     [t |-> "peek", lo |-> 2, hi |-> 1, open |-> FALSE]},
          unary  |-> {"opt", "rep", "not", "push"},
          binary |-> {"seq", "alt"},
          size   |-> 3,
@@ -133,7 +141,7 @@ Cfg ==
          sigma  |-> {97, 98},  len |-> 4]
     [] BaseSlice = "counted" ->
         [leaves |-> {S(a), S(b), Id("r1")},
-         unary  |-> {"exact2", "min1", "max2", "minmax12", "rep1", "opt"},
+         unary  |-> {"exact2", "min1", "max2", "minmax12", "minmax11", "minmax22", "rep1", "opt"},
          binary |-> {"seq", "alt"},
          size   |-> 3,
          tyM    |-> {"", "@"},
@@ -156,7 +164,7 @@ Cfg ==
 AltList(xs) == LET RECURSIVE F(_)
                    F(i) == IF i = Len(xs) THEN xs[i] ELSE Bin("alt", xs[i], F(i + 1))
                IN F(1)
-SkipPool == {S(a), S(ab), S(ac), S(b), S(<<>>), S(eacute), S(ea), S(<<252>>), Id("r1")}
+SkipPool == {S(a), S(ab), S(ac), S(b), S(<<>>), S(eacute), S(ea), S(<<252>>), S(hash), Id("r1")}
 \* tail.t = "none": the loop alone; "plus": the one-or-more form of the loop; "star": the one-or-more form inside an outer
 \* repetition (terminates only because the inner loop must consume); otherwise the loop followed by tail
 SkipShape(xs, tail) ==
@@ -165,12 +173,13 @@ SkipShape(xs, tail) ==
   IN CASE tail.t = "none" -> core
        [] tail.t = "plus" -> Un("rep1", body)
        [] tail.t = "star" -> Un("rep", Un("rep1", body))
+       [] tail.t = "pre"  -> Bin("seq", S(b), core)               \* the scan does not start at offset 0
        [] OTHER -> Bin("seq", core, tail)
 SkipPool3 == {S(a), S(ac), S(<<>>), Id("r1")}
 \* n = 1, 2: up to n alternatives from the full pool; n = 3: plus three alternatives from the
 \* reduced pool; n >= 4: three alternatives from the full pool
 SkipExprs(n) ==
-  LET Of(k, pool) == { SkipShape(xs, tl) : xs \in [1..k -> pool], tl \in {[t |-> "none"], S(a), [t |-> "plus"], [t |-> "star"]} }
+  LET Of(k, pool) == { SkipShape(xs, tl) : xs \in [1..k -> pool], tl \in {[t |-> "none"], S(a), [t |-> "plus"], [t |-> "star"], [t |-> "pre"]} }
   IN CASE n <= 2 -> UNION { Of(k, SkipPool) : k \in 1..n }
        [] n = 3  -> Of(1, SkipPool) \cup Of(2, SkipPool) \cup Of(3, SkipPool3)
        [] OTHER  -> UNION { Of(k, SkipPool) : k \in 1..3 }
@@ -180,6 +189,7 @@ FactorExprs ==
   UNION { { Bin("alt", Bin("seq", x, y), x),
             Bin("alt", x, Bin("seq", x, y)),
             Bin("alt", Bin("seq", x, y), Bin("seq", x, z)),
+            Bin("alt", Bin("seq", x, z), Bin("seq", y, z)),            \* a common TAIL must not be factored (ordered choice commits)
             Bin("seq", Un("rep", Bin("seq", x, y)), x),
             Bin("seq", Bin("seq", x, y), z),
             Bin("alt", Bin("alt", x, y), z),
@@ -201,7 +211,8 @@ RestoreExprs ==
                            [t |-> "tag", a |-> Un("opt", f), tag |-> "t"], Bin("seq", Un("rep1", Bin("alt", f, S(b))), S(b)) }
                     ELSE {})
       Post == { Id("PEEK_ALL"), Bin("seq", Id("POP"), Id("POP")), [t |-> "peek", lo |-> 0, hi |-> 1, open |-> FALSE],
-                Bin("seq", Id("DROP"), Id("DROP")), Id("POP_ALL") }
+                Bin("seq", Id("DROP"), Id("DROP")), Id("POP_ALL"),
+                Bin("seq", Un("rep", Id("DROP")), Un("not", Id("DROP"))) }      \* DROP* empties the stack, whatever its depth
       \* the same inside a look-ahead: the predicate's verdict depends on the stack the absorbed failure left
       LPost == { Id("PEEK"), Id("PEEK_ALL"), Bin("seq", Id("POP"), Id("POP")) }
   IN UNION { { Bin("seq", pre, Bin("seq", w, post)) : pre \in Pre, w \in W(f), post \in Post } : f \in F }
@@ -221,6 +232,8 @@ MkUn(op, x) ==
     [] op = "min1"     -> [t |-> "min", a |-> x, n |-> 1]
     [] op = "max2"     -> [t |-> "max", a |-> x, n |-> 2]
     [] op = "minmax12" -> [t |-> "minmax", a |-> x, m |-> 1, n |-> 2]
+    [] op = "minmax11" -> [t |-> "minmax", a |-> x, m |-> 1, n |-> 1]
+    [] op = "minmax22" -> [t |-> "minmax", a |-> x, m |-> 2, n |-> 2]
     [] op = "tagt"     -> [t |-> "tag", a |-> x, tag |-> "t"]
     [] OTHER           -> Un(op, x)
 
@@ -238,6 +251,9 @@ Exprs == CASE Slice = "skip"   -> SkipExprs(MaxSize)
            [] BaseSlice = "restore" -> RestoreExprs
            [] BaseSlice = "pushws" -> PushWsExprs
            [] BaseSlice = "wsmod" -> { Bin("seq", S(a), S(b)), Un("rep", Id("r1")) }
+           [] BaseSlice = "wspred" -> { Bin("seq", Un("not", S(b)), S(a)), Bin("seq", Un("and", S(a)), S(a)),
+                                        Bin("seq", Un("not", S(b)), Bin("seq", S(a), S(a))), Un("rep", Bin("seq", Un("not", S(b)), S(a))),
+                                        Bin("seq", Un("not", Id("r1")), Id("r1")), Bin("seq", Un("not", Un("not", S(a))), S(a)) }
            [] OTHER -> UNION { ExprsOfSize(n) : n \in 1..MaxSize }
 
 \* WHITESPACE / COMMENT bodies: a literal, or (wb = "rule") a call of a non-silent helper rule, which
